@@ -121,7 +121,7 @@ def run_c04(ctx):
     directly in blocks on a twin); sigm = correspondence of OLP/Sig/Model.lean with RawBytes(),
     ValidateBasic + key handlers, and the OLVM validateSigner, plus component-level monitors"""
     return [run_olh(ctx, 'sig', twin_args(ctx, ['-histories', '200', '-blocks', '14', '-maxtxs', '6'], ['-histories', '3000', '-blocks', '24', '-maxtxs', '8'])),
-            run_olh(ctx, 'sigm', ['-corpus', os.path.join(ctx['root'], 'corpus', 'C04')] + twin_args(ctx, ['-raw', '15000', '-vb', '20000', '-olvm', '62'], ['-raw', '300000', '-vb', '400000', '-olvm', '600']))]
+            run_olh(ctx, 'sigm', ['-corpus', os.path.join(ctx['root'], 'corpus', 'C04')] + twin_args(ctx, ['-raw', '15000', '-vb', '20000', '-olvm', '84'], ['-raw', '300000', '-vb', '400000', '-olvm', '672']))]
 
 
 def run_c19(ctx):
@@ -142,6 +142,15 @@ def run_c10(ctx):
     corpus = os.path.join(ctx['root'], 'corpus', 'C10')
     return [run_olh(ctx, 'elect', ['-corpus', corpus] + twin_args(ctx, ['-histories', '400', '-blocks', '24', '-maxtxs', '5', '-heap', '300'],
                                                                     ['-histories', '6000', '-blocks', '28', '-maxtxs', '5', '-heap', '4000']))]
+
+
+def run_c16(ctx):
+    corpus = os.path.join(ctx['root'], 'corpus', 'C16')
+    if ctx['tier'] == 'quick':
+        args = ['-cases', '2000', '-maxops', '40', '-programs', '200', '-corpus', corpus]
+    else:
+        args = ['-cases', '40000', '-maxops', '40', '-programs', '4000', '-corpus', corpus]
+    return [run_olh(ctx, 'evm', args)]
 
 
 SHELL_ASSUME = [
@@ -330,9 +339,11 @@ PROPS = {
         required_theorems=['validateBasic_iff', 'validateBasic_never_panics', 'signature_count_mismatch_rejected', 'substituted_signer_rejected',
                            'unverified_signature_rejected', 'accepted_signatures_fix_signers', 'reordered_signatures_rejected',
                            'unser_ser', 'ser_injective', 'serBytes_injective', 'mutation_changes_signed_bytes', 'tamper_needs_fresh_signatures', 'tamper_rejected',
-                           'authentic_partial', 'btcec_accepts_unsigned', 'btcec_counterexample', 'btcec_only_for_empty_signer',
+                           'authentic', 'no_acceptance_without_verification', 'handler_needs_wellformed_key', 'unusable_key_rejected',
                            'checkTx_admits_only_validated', 'deliverTx_executes_only_validated', 'invalid_signature_delivery_without_effect', 'sigAdmit_basic_iff',
-                           'olvm_sender_recovered', 'olvm_memo_pins_nonce', 'olvm_uncovered_fields_unsigned', 'olvm_covered_partial', 'olvm_malformed_signature_panics', 'olvm_never_panics_partial',
+                           'olvm_accepted_iff', 'olvm_sender_recovered', 'olvm_envelope_determined', 'olvm_covered', 'olvm_never_panics', 'olvm_memo_canonical', 'olvm_memo_pins_nonce',
+                           'olvm_malformed_signature_rejected', 'olvm_missing_chainid_rejected', 'olvm_foreign_envelope_rejected', 'olvm_foreign_signer_key_rejected',
+                           'olvmValidate_ok_iff', 'olvm_payload_bytes_determined', 'olvmValidate_never_panics', 'olvm_signer_key_through_address',
                            'every_handler_checks_signatures', 'every_registered_kind_validates', 'validate_guards_present', 'validate_precedes_processing'],
         run=run_c04, replay=replay_olh('sigm'), level='proof',
         assumptions=[
@@ -341,7 +352,7 @@ PROPS = {
             'premise ValidatesSignatures of the admission theorems (handler.Validate fails when the signature predicate of the kind is false) is tied to the source by the regenerated table validateRows: one row per Go type implementing action.Tx, classified by the shape of its Validate, discharged by decide (OLP/Props/C04Facts.lean); the entry-point discipline (Validate before ProcessCheck/ProcessDeliver/ProcessFee, failure returned) by validateGuards / sessionRule',
             'the shell model (checkTx / deliverTx) is tied to app/controller.go by the `shell` engine of C01/C05-C08; RawBytes(), ValidateBasic with the four key handlers, and the OLVM validateSigner are tied by the `sigm` engine on every run',
         ],
-        model_limits='the library primitives (ed25519 / secp256k1 / go-ethereum / btcec point parsing, address hashes, signature verification, EIP-155 sender recovery) are uninterpreted parameters answered by the real libraries in the correspondence run; the JSON *decoder* is not modelled (unser is a proof device; acceptance of non-canonical encodings is C05); Go < 1.22 escapes \\b and \\f as \\u0008 / \\u000c, so nodes built with different toolchains would disagree on RawBytes() of such memos (outside the model); internal transactions created by block hooks (ExpireProposals / FinalizeProposals) do not pass Validate and are outside this property'),
+        model_limits='the library primitives (ed25519 / secp256k1 / go-ethereum / btcec point parsing, address hashes, signature verification, EIP-155 sender recovery) are uninterpreted parameters answered by the real libraries in the correspondence run; the JSON *decoder* is not modelled (unser is a proof device; acceptance of non-canonical encodings is C05); Go < 1.22 escapes \\b and \\f as \\u0008 / \\u000c, so nodes built with different toolchains would disagree on RawBytes() of such memos (outside the model); internal transactions created by block hooks (ExpireProposals / FinalizeProposals) do not pass Validate and are outside this property; OLVM: what remains outside the full-strength statements is (a) the cryptography itself (EthLib.sender is a parameter; go-ethereum enforces low-s) and (b) that the public key named in the signature entry is pinned through its address only (olvm_signer_key_through_address)'),
     'C19': dict(
         lean_modules=['OLP.Props.C19'], namespaces=['OLP.Props.C19'],
         required_theorems=['verdict_iff_threshold', 'required_is_ceiling', 'tally_follows_verdict', 'guilty_only_by_verdict',
@@ -393,4 +404,18 @@ PROPS = {
                      'an address / public key enters the model as the natural number that orders like its byte string; the Tendermint address of a key is an uninterpreted function `addrOf` in the theorems (hash collisions are outside)',
                      'the multi-block theorems are conditional on per-block side conditions the code does not establish (BlockOK: keys bound to addresses and of type ed25519, somebody elected, total power in range) and, for convergence, on every member of the pending set having a record; each is shown necessary by a proved counterexample that the engine replays on the real application (known_findings.json KF-C10-1..6)'],
         model_limits='not in the model: fee distribution inside GetEndBlockUpdate (its division by the total power panics when every record has power 0: monitored as endblock-panics-zero-total-power), UpdateWithdrawReward and ExecuteAllegationTracker (same hook, no influence on the returned list), how stake / unstake / slashing change the records between blocks (C11: the multi-block theorems quantify over arbitrary record sequences), how validators get flagged for missed votes (C19: the malicious set is an input); governance changes of the staking options are exercised through the fork block (applyUpdate) and one scripted CONFIG_UPDATE proposal lifecycle in the valid-range option family (raised minimum self delegation, raised top count), not through generated proposals'),
+    'C16': dict(
+        lean_modules=['OLP.Props.C16'], namespaces=['OLP.Props.C16'],
+        required_theorems=['step_refines', 'run_refines', 'impl_refines_ref_partial', 'impl_refines_ref_decidable_partial', 'impl_refines_ref_from_empty_partial', 'sane_storeOK',
+                           'client_refines', 'any_client_same_result_partial', 'sim_init', 'ref_revert_restores', 'ref_finalise_promotes',
+                           'selfdestruct_keeps_balance', 'recreated_account_keeps_storage', 'createAccount_keeps_storage',
+                           'stale_dirty_index_panics', 'reverted_transfer_deletes_empty_account', 'tombstone_code_is_lost'],
+        run=run_c16, replay=replay_olh('evm'), level='proof',
+        trusted_extra=['go-ethereum v1.10.8 core/state.StateDB over rawdb.NewMemoryDatabase() is the reference semantics (oracle of the monitor); the Lean `Ref` is compared with it call by call on every run',
+                       'go-ethereum\'s EVM interpreter is a deterministic client of the vm.StateDB interface (the step from "same interface behaviour" to "same result of every bytecode program", theorem any_client_same_result_partial)'],
+        assumptions=['Keccak-256 is injective on the codes and storage keys that occur (the model identifies a code hash with the code and keccak(addr||slot) with (addr, slot)); amounts, nonces and the refund counter are unbounded naturals (uint64 / 256-bit wrap-around is out of scope)',
+                     'SubBalance is only called with amount <= balance (every EVM path checks CanTransfer / buyGas first): beyond it the adapter panics ("Failed to minus balance") while go-ethereum lets the balance go negative; counted as precondition-subbalance-underflow, both Lean models refuse',
+                     'oracle normalisation, interface-op mode only: go-ethereum journals a resetObjectChange (dirtied() = nil) when an object is created over a live or previously deleted one, so a bare CreateAccount / SubBalance(a,0) leaves the fresh object out of journal.dirties; the harness issues SetNonce(a, current nonce) on the oracle behind every creating call (the EVM itself always follows CreateAccount with SetNonce(1)); not applied when the calls come from the EVM',
+                     'transition code cross-check (adapter\'s vm.ApplyMessage vs go-ethereum core.ApplyMessage over go-ethereum state) is modulo the chain\'s own parameters: refund quotient 3 instead of 5, no coinbase payment, no base fee, nonce-too-high admitted (S12, another property)'],
+        model_limits='impl_refines_ref / any_client_same_result are proved under Impl.safeRun / Client.safe, a decidable predicate on the adapter state evaluated by the driver on every correspondence line: it excludes the five confirmed mechanisms (S8 balance and storage residue, stale dirties index, reverted balance change on an empty stored account via Finalise(false), TOMBSTONE code), the RIPEMD touch exception, Prepare/Reset inside a transaction, and two well-formedness conditions that held on every state ever produced but are checked rather than proved invariant (every dirty slot has its origin cached; no access-list slot without its address). The access list is modelled as flat lists (vm/access_list.go is a verbatim copy of go-ethereum\'s), preimages and ForEachStorage are not modelled, gas metering constants and opcodes are go-ethereum\'s on both sides.'),
 }
